@@ -232,6 +232,40 @@ func (e *engine) slowScenario(vi, off int, dual bool) {
 			lost++
 		}
 	}
+	// the healthy neighbour, and the publishing node's own subscription (when it keeps it), got
+	// every message exactly once too, whatever the slow neighbour did
+	others := []int{2}
+	if dual {
+		others = append(others, 0)
+	}
+	for _, j := range others {
+		nsj := len(m.liveSubs(j, "c1"))
+		waitFor(3*time.Second, func() bool {
+			m.mu.Lock()
+			defer m.mu.Unlock()
+			c := 0
+			for _, d := range m.dels {
+				if d.node == j {
+					c++
+				}
+			}
+			return c >= k*nsj
+		})
+		m.mu.Lock()
+		gj := map[string]int{}
+		for _, d := range m.dels {
+			if d.node == j {
+				gj[d.data]++
+			}
+		}
+		m.mu.Unlock()
+		for _, d := range datas {
+			if gj[d] != nsj && mon == "" {
+				mon = fmt.Sprintf("a message published while neighbour node 1 was not reading was handed %d times (not once per subscription: %d) to node %d, whose link was healthy", gj[d], nsj, j)
+				class = "publish-lost-other"
+			}
+		}
+	}
 	key := "pubsub.slow:" + class
 	if mon == "" && lost != 0 {
 		mon = fmt.Sprintf("%d of %d messages published while the neighbour was not reading never reached it (or reached it twice) although its stream stayed open", lost, k)
